@@ -267,17 +267,21 @@ func (r *yieldRewriter) rewriteStmt(
 	case *ast.SwitchStmt:
 		// ↓↓ non-trival branch ↓↓
 		// &stmt.Init maybe ptr of typed nil
-		return r.rewriteSwitchStmt(
+		following := r.rewriteSwitchStmt(
 			stmt, &stmt.Init, stmt.Tag, stmt.Body, &stmt.Switch, children,
 		)
+		r.generateLastNormalAfterSwitch(isLast, following)
+		return following
 
 	case *ast.TypeSwitchStmt:
 		// ↓↓ non-trival branch ↓↓
 		trivalAssign := r.mustNoYield(stmt.Assign)
 		r.assert(trivalAssign, stmt.Assign, "yield not allowed")
-		return r.rewriteSwitchStmt(
+		following := r.rewriteSwitchStmt(
 			stmt, &stmt.Init, stmt.Assign, stmt.Body, &stmt.Switch, children,
 		)
+		r.generateLastNormalAfterSwitch(isLast, following)
+		return following
 
 	case *ast.ForStmt:
 		// ↓↓ non-trival branch ↓↓
@@ -328,6 +332,15 @@ func (r *yieldRewriter) generateLastNormalIfNecessary(children *block) {
 		children.pushReturn(r.callNormal, kindNormal)
 	}
 }
+
+// a switch containing yield as the last stmt of a loop body / branch:
+// MAKE SURE the callback body END WITH RETURN STMT, the same as IfStmt
+func (r *yieldRewriter) generateLastNormalAfterSwitch(isLast bool, following *block) {
+	if isLast && following.len() > 0 && following.lastKind() == kindSwitch {
+		r.generateLastNormalIfNecessary(following)
+	}
+}
+
 func (r *yieldRewriter) checkYieldCall(call *ast.CallExpr) {
 	v := r.pkg.TypeOf(call.Args[0])
 	t := r.pkg.TypeOf(r.yieldAst.funRetParamTy)
